@@ -75,8 +75,12 @@ theorem disj_of_adjacent (es : List (Iv Int)) (hp : Pos es) (h : ivsNoOverlap es
         have := hp y (by simp)
         omega
 
-/-- **constructor**: whatever entry list, labels and requested span are given, a tier that the IntervalTier
-constructor returns is well-formed; and it refuses only with TextgridStateError or TimelessTextgridTierException -/
+/-- **constructor**: whatever entry list and labels are given, with a requested span that is not reversed (`hspan`:
+if both `minT` and `maxT` are given then `minT ≤ maxT`), a tier that the IntervalTier
+constructor returns is well-formed; and it refuses only with TextgridStateError or TimelessTextgridTierException.
+`hspan` is NOT enforced by the code and matters exactly for an entry-less tier: see
+`construct_reversed_span_counterexample` (with entries the hull of the entries repairs a reversed request:
+`construct_wf_of_entries`). -/
 theorem construct_wf (name : String) (es : List (Iv Int)) (lo hi : Option Int)
     (hspan : ∀ a b, lo = some a → hi = some b → a ≤ b) :
     (∀ t, mkITier name es lo hi = .ok t → t.WF) ∧
@@ -127,7 +131,81 @@ theorem construct_wf (name : String) (es : List (Iv Int)) (lo hi : Option Int)
         · intro t h; cases h
         · intro e h; simp only [Except.error.injEq] at h; left; exact h.symm
 
-/-- the constructor applied through `tier.new(...)` / every operation that ends in it -/
+/-- with at least one entry the requested span may be anything (also reversed): the span is the hull of the entries
+and the requested bounds, and an entry has `start < end` -/
+theorem construct_wf_of_entries (name : String) (es : List (Iv Int)) (lo hi : Option Int) (hne : es ≠ []) :
+    ∀ t, mkITier name es lo hi = .ok t → t.WF := by
+  intro t ht
+  by_cases hspan : ∀ a b, lo = some a → hi = some b → a ≤ b
+  · exact (construct_wf name es lo hi hspan).1 t ht
+  · -- reversed request: same argument as in `construct_wf`, the last clause from an entry
+    unfold mkITier at ht
+    generalize hes1 : sortIvs (es.map fun iv => { iv with l := pyStrip iv.l }) = es1 at ht
+    have hstr : Stripped es1 := by
+      intro y hy
+      rw [← hes1, mem_sortIvs] at hy
+      obtain ⟨iv, _, rfl⟩ := List.mem_map.1 hy
+      exact pyStrip_idem _
+    have hne1 : es1 ≠ [] := by
+      intro h
+      have hl : es1.length = es.length := by rw [← hes1, (sortIvs_perm _).length_eq, List.length_map]
+      rw [h] at hl
+      exact hne (List.eq_nil_of_length_eq_zero hl.symm)
+    simp only at ht
+    cases hmin : pyMinList (es1.map (·.s) ++ lo.toList) with
+    | none => rw [hmin] at ht; simp at ht
+    | some mn =>
+      cases hmax : pyMaxList (es1.map (·.e) ++ hi.toList) with
+      | none => rw [hmin, hmax] at ht; simp at ht
+      | some mx =>
+        rw [hmin, hmax] at ht
+        simp only at ht
+        by_cases hv : (ivsAllPos es1 && ivsNoOverlap es1) = true
+        · simp only [hv, if_true, Except.ok.injEq] at ht; subst ht
+          simp only [Bool.and_eq_true] at hv
+          have hpos := (ivsAllPos_iff es1).1 hv.1
+          have hdisj := disj_of_adjacent es1 hpos hv.2
+          have hlo := pyMinList_le _ _ hmin
+          have hhi := pyMaxList_ge _ _ hmax
+          refine ⟨hpos, hdisj, ?_, ?_, hstr, ?_⟩
+          · intro iv hiv; exact hlo iv.s (List.mem_append_left _ (List.mem_map_of_mem hiv))
+          · intro iv hiv; exact hhi iv.e (List.mem_append_left _ (List.mem_map_of_mem hiv))
+          · simp only
+            cases es1 with
+            | nil => exact absurd rfl hne1
+            | cons x xs =>
+              have := hlo x.s (by simp)
+              have := hhi x.e (by simp)
+              have := hpos x (by simp)
+              omega
+        · simp only [hv, Bool.false_eq_true, if_false] at ht; cases ht
+
+/-- **FINDING (replayed on the real class) — the excluded case of `hspan`.**  `IntervalTier('T', [], 5, 2)` (no entries,
+`minT = 5 > maxT = 2`) is accepted: the tier has `minTimestamp = 5.0`, `maxTimestamp = 2.0` and `validate()` returns
+True; likewise `tier.new(entries=[], minTimestamp=20)` on a tier ending at 10 returns a tier spanning `[20, 10]`.
+The model does the same, and the result is not well-formed (`WF.span`: `lo ≤ hi`) — the same kind of object as in
+finding A28 (`maxTimestamp < minTimestamp`).  Expected: a praatio error (as for any other request the constructor
+cannot honour), or the bounds put in order as `PointTier('T', [], 5, 2)` does (it returns the span `[2, 5]`:
+`mkPTier` takes `min`/`max` over one list).  With at least one entry the hull repairs the request
+(`construct_wf_of_entries`; `IntervalTier('T', [(1,3,'a')], 5, 2)` spans `[1, 3]`). -/
+theorem construct_reversed_span_counterexample :
+    mkITier "T" ([] : List (Iv Int)) (some 5) (some 2) = .ok ⟨"T", [], 5, 2⟩ ∧
+    ¬ (⟨"T", [], 5, 2⟩ : ITier Int).WF ∧ (⟨"T", [], 5, 2⟩ : ITier Int).validate = true ∧
+    mkPTier "T" ([] : List (Pt Int)) (some 5) (some 2) = .ok ⟨"T", [], 2, 5⟩ ∧
+    (⟨"T", [⟨1, 3, "a"⟩], 0, 10⟩ : ITier Int).new (es := some []) (lo := some 20) = .ok ⟨"T", [], 20, 10⟩ := by
+  refine ⟨?_, ?_, ?_, ?_, ?_⟩
+  · rw [mkITier_of_wf "T" [] 5 2 (by simp [Pos]) (by simp [Disj]) (by simp [Stripped])]; rfl
+  · intro h
+    have := h.span
+    simp at this
+  · simp [ITier.validate, ITier.validate.go]
+  · rw [mkPTier_of_wf "T" [] 5 2 (by simp) (by simp)]; rfl
+  · unfold ITier.new
+    simp only [Option.getD_some, Option.getD_none]
+    rw [mkITier_of_wf "T" [] 20 10 (by simp [Pos]) (by simp [Disj]) (by simp [Stripped])]; rfl
+
+/-- the constructor applied through `tier.new(...)` / every operation that ends in it (`hspan`: as in `construct_wf`;
+every operation of the library that ends in `new` passes a span that is in order — that is what `step_wf` shows) -/
 theorem new_wf (t : ITier Int) (name : Option String) (es : Option (List (Iv Int))) (lo hi : Option Int)
     (hspan : (lo.getD t.lo) ≤ (hi.getD t.hi)) (t' : ITier Int) (h : t.new name es lo hi = .ok t') : t'.WF := by
   unfold ITier.new at h
@@ -167,15 +245,18 @@ def stepT (t : ITier Int) : TOp → Except Err (ITier Int)
   | .morph u sel => t.morph u sel
   | .new => t.new
 
-/-- side conditions under which a step is covered by the theorems: arguments in the property's domain (there is no
-separation condition on the tier's entries: `insert`, `delete`, `erase`, `union`, `difference` are covered on every
-well-formed tier, however close its entries are) -/
+/-- side conditions under which a step is covered by the theorems (see lean/HYPOTHESES.md): second operands are
+well-formed tiers (the property's own wording: "operations on well-formed tiers"; every tier object that can be passed
+comes from a constructor); `insertSpace` is asked for a positive duration (the property's quantifier of C08);
+`appendTier` works on non-negative times (NOT enforced by the code: `C09.append_negative_counterexample`).  There is no
+condition on the tier's entries, on the inserted entry (any times, any label) and on `eraseRegion` / `insertSpace`
+positions. -/
 def OpOk (t : ITier Int) : TOp → Prop
   | .crop _ _ _ _ => True
   | .erase _ _ _ _ => True
-  | .space s d _ => 0 < d ∧ t.lo ≤ s
+  | .space _ d _ => 0 < d
   | .shift _ _ => True
-  | .insert x _ => pyStrip x.l = x.l
+  | .insert _ _ => True
   | .delete _ => True
   | .union u => u.WF
   | .difference u => u.WF
@@ -201,9 +282,9 @@ theorem step_wf (t : ITier Int) (hwf : t.WF) (op : TOp) (hop : OpOk t op) (t' : 
     exact C07.erase_wf_any t hwf a b m sh t' h
   | space s d m =>
     simp only [stepT] at h
-    obtain ⟨hd, hlo⟩ := hop
+    have hd : 0 < d := hop
     by_cases hm : m = .error → ∀ iv ∈ t.es, ¬ C08.Straddles s iv
-    · obtain ⟨t'', e, w, _⟩ := C08.insert_spec t hwf s d hd hlo m hm
+    · obtain ⟨t'', e, w, _⟩ := C08.insert_spec t hwf s d hd m hm
       rw [h] at e; cases e; exact w
     · have hm' : m = .error ∧ ∃ iv ∈ t.es, C08.Straddles s iv := by
         apply Classical.byContradiction
@@ -224,18 +305,10 @@ theorem step_wf (t : ITier Int) (hwf : t.WF) (op : TOp) (hop : OpOk t op) (t' : 
       rw [h] at e; cases e; exact w
   | insert x m =>
     simp only [stepT] at h
-    have hstr : pyStrip x.l = x.l := hop
-    by_cases hx : x.s < x.e
-    · exact C11.step_wf t hwf (.insert x m) ⟨hx, hstr, fun _ => C11.merged_label_stripped t hwf x hstr⟩ t' h
-    · -- a zero-length or reversed interval is rejected by the crop inside insertEntry
-      have hx' : ({ x with l := pyStrip x.l } : Iv Int) = x := C11.strip_id x hstr
-      unfold ITier.insertEntry at h
-      simp only [hx'] at h
-      rw [C06.crop_rejects t x.s x.e .lax false (by omega)] at h
-      simp [bind, Except.bind] at h
+    exact C11.step_wf t hwf (.insert x m) t' h
   | delete x =>
     simp only [stepT] at h
-    exact C11.step_wf t hwf (.delete x) trivial t' h
+    exact C11.step_wf t hwf (.delete x) t' h
   | union u =>
     simp only [stepT] at h
     obtain ⟨R, e, w, _⟩ := C10.union_spec t u hwf hop
